@@ -304,6 +304,24 @@ def run_lines(binary, lines, timeout=1800, env=None, args=(), prefix=None):
     return out, None
 
 
+def run_lines_parallel(binary, lines, args=(), prefix=None, workers=12, timeout=3000):
+    """run_lines over several processes (the whole-server harness is single-threaded per scenario)."""
+    from concurrent.futures import ThreadPoolExecutor
+    n = max(1, min(workers, len(lines) // 32))
+    size = (len(lines) + n - 1) // n
+    chunks = [lines[i:i + size] for i in range(0, len(lines), size)]
+    with ThreadPoolExecutor(max_workers=n) as ex:
+        res = list(ex.map(lambda c: run_lines(binary, c, timeout=timeout, args=args, prefix=prefix), chunks))
+    out, errs = [], []
+    for o, e in res:
+        if e:
+            errs.append(e)
+        out += (o or [])
+    if errs or len(out) != len(lines):
+        return out, "; ".join(errs) or "lines=%d/%d" % (len(out), len(lines))
+    return out, None
+
+
 # ----------------------------------------------------------------------------- context
 
 class Ctx:
@@ -416,6 +434,8 @@ def differential(ctx, name, proof, cases, line_of, oracle, norm_impl=None, norm_
     _run_lines = run_lines
 
     def run_impl(ls):
+        if impl_spec and len(ls) > 64:
+            return run_lines_parallel(impl, ls, args=impl_args, prefix=impl_prefix)
         return _run_lines(impl, ls, args=impl_args, prefix=impl_prefix)
     lines = [line_of(c) for c in cases]
     corr_broken = None
